@@ -5,6 +5,7 @@ CONSTANTS
   Reenters = {}
   Lockeds = {}
   Timeouts = TRUE
+  CbThrows = {FALSE}
   ClearOutsideLock = TRUE
   SoleOwnerOnly = TRUE
 INVARIANTS DestroyedOnce NeverWhileOwned UserCodeOutsideLock CallbackFirst NoLossNoDup
